@@ -21,6 +21,7 @@ func init() {
 	vrt.Register("C11_receiver_forms", ReceiverForms)
 	vrt.Register("C11_repeated_names", RepeatedNames)
 	vrt.Register("C11_methods_on_pointees", MethodsOnPointees)
+	vrt.Register("C11_pointee_bound_to_a_name", PointeeBoundToAName)
 }
 
 type T struct {
@@ -767,5 +768,35 @@ func MethodsOnPointees() {
 	vrt.Assert(err == nil, "a pointer-receiver method reached through a pointer field is callable")
 	vrt.Assert(got == c.want, "the method runs on the object the path leads to: every call sees what the earlier ones did")
 	vrt.Assert(c.obj.N == n+2, "the object the path leads to is the one the method ran on")
+	vrt.Cover("done")
+}
+
+// ---- the same object reached through a name: let p = h.P, a parameter, a loop
+// variable. plush hands a pointer field on as a COPY of what it points to (only
+// the receiver of a method call keeps the pointer, e4fe5fb), so p.Inc() runs on
+// the copy: every call sees the initial state and the object is unchanged. A
+// recorded finding (known_findings.json, DESIGN.md 6.2): the first assertion
+// bounds what is tolerated to exactly that, the second states the property.
+func PointeeBoundToAName() {
+	n := vrt.Int()
+	vrt.Assume(n < 1<<62)
+	h := &holderP{P: &counterP{N: n}}
+	ctx := plush.NewContext()
+	ctx.Set("h", h)
+	var in string
+	switch vrt.Choice(3) {
+	case 0:
+		in = "<% let p = h.P %><%= p.Inc() %>,<%= p.Inc() %>,<%= h.P.N %>"
+	case 1:
+		in = "<% let f = fn(p) { return p.Inc() } %><%= f(h.P) %>,<%= f(h.P) %>,<%= h.P.N %>"
+	default:
+		in = "<% let p = h.P %><%= for (i) in [1, 2] { %><%= p.Inc() %>,<% } %><%= h.P.N %>"
+	}
+	got, err := render(in, ctx)
+	vrt.Assert(err == nil, "a pointer-receiver method called through a name bound to a pointer field renders")
+	want := itoa(n+1) + "," + itoa(n+2) + "," + itoa(n+2)
+	plushNow := itoa(n+1) + "," + itoa(n+1) + "," + itoa(n)
+	vrt.Assert(got == want || got == plushNow, "the calls run on the object (Go) or each on a copy of it (plush); nothing else")
+	vrt.Assert(got == want, "a method reached through a name bound to a pointer field runs on the object the field points to")
 	vrt.Cover("done")
 }
